@@ -5,6 +5,7 @@ import (
 	"github.com/modernizing/coca/languages/java"
 	api_domain2 "github.com/modernizing/coca/pkg/domain/api_domain"
 	"github.com/modernizing/coca/pkg/domain/core_domain"
+	"github.com/modernizing/coca/pkg/infrastructure/ast/ast_java/common_listener"
 	"reflect"
 	"strings"
 )
@@ -273,7 +274,8 @@ func buildRestApiWithParameters(ctx *parser.MethodDeclarationContext) {
 		for _, modifier := range modifiers {
 			childType := reflect.TypeOf(modifier.GetChild(0))
 			if childType.String() == "*parser.AnnotationContext" {
-				qualifiedName := modifier.GetChild(0).(*parser.AnnotationContext).QualifiedName().GetText()
+				// the annotation may be written in the alternative form (a.b.@C), which has no qualifiedName node
+				qualifiedName := common_listener.AnnotationName(modifier.GetChild(0).(*parser.AnnotationContext))
 				if qualifiedName == "RequestBody" {
 					hasRequestBody = true
 				}
